@@ -27,6 +27,11 @@ def chk(pid, level, text, note, technique, design_ref):
       "technique": technique,
     }
 CHECKS = [
+ chk("C17", "exploration",
+     "seeded search over (abstract LP/MIP model, layout variant, container, entry point, chunking, fault plan): an independent renderer writes the MPS text in every layout variant of the statement, an independent gzip writer or flate2 packs it, and the real loaders read it from a simulated stream (load_raw_reader / load_zipped_reader) or the simulated disk (load_file) under short reads, EINTR, EIO at byte k (every k for N files, enumerated), open failure and one flipped container bit. Oracle: transient faults => Ok and exactly the expected problem (by name); hard fault or flipped bit => Err or the expected problem; each listed one-token corruption => Err.",
+     "trusts: the reference model and renderer in sim/src/model/mps.rs (independent of the SDK's writer), the normal form in model/lp.rs; layouts the statement leaves open are not generated (listed in evidence assumptions)",
+     "deterministic simulation with fault injection (simulated stream/disk, seeded schedules of chunking and read faults, reference-model oracle, shrinking + replay)",
+     "DESIGN.md section 3 C17"),
  chk("C18", "exploration",
      "seeded search over (instance, write-side fault plan, read-side fault plan, chunking, hash seed): mps::write_file on a simulated disk (ENOSPC after a byte budget, EIO, EINTR, short writes, open failure), then mps::load_file fault-free ('acknowledged => complete and equal') and under read faults ('Err or equal'); nonlinear instances must be refused naming the offender. Sampling, not proof; every failure is shrunk and replayable.",
      "trusts: libc interposition reaching every file I/O entry point used (syscall counters in evidence), tmpfs as the disk, the reference normal form in sim/src/model/lp.rs; domains compared as sets",
